@@ -490,6 +490,16 @@ func c16configs(tier string) []cfg {
 	return out
 }
 
+func c15configs(tier string) []cfg {
+	return []cfg{
+		{Client: []string{"S:a:boom", "S:b:flag"}, Pre: []string{"boom-panic"}, Env: []string{"flag++"}},
+		{Client: []string{"S:b:items", "S:a:boom"}, Pre: []string{"boom-panic"}, Env: []string{"edit"}, Exec: "go"},
+		{Client: []string{"S:a:boom", "S:b:flag"}, Env: []string{"boom-panic", "boom-off"}},
+		{Client: []string{"S:a:boom", "M:m:4", "S:b:flag"}, Pre: []string{"boom-panic"}},
+		{Client: []string{"S:a:boom", "E", "S:b:maybe"}, Pre: []string{"boom-panic"}, Env: []string{"maybe-toggle"}},
+	}
+}
+
 func register(prop, name, oracle string, bounds [2]int, cfgs func(string) []cfg, rule string) {
 	reg.Register(&reg.Harness{Property: prop, Name: name, Level: "model_checking", Bounds: bounds,
 		Run: func(rp *explore.Report, tier string) {
@@ -514,5 +524,6 @@ func init() {
 	common := "real graphql.CreateConnection/ServeJSONSocket over a fake JSON socket; schema whose resolvers read an in-memory store through per-run reactive resources; client script thread, environment thread (data change + invalidation), optional context canceller; all schedules within the deviation bound. "
 	register("C02", "c02/converge", "converge", [2]int{2, 3}, c02configs, common+"Items = client scripts (subscribe/unsubscribe/mutate/echo/bogus over ids a,b; queries: scalar, keyed list, union, nullable object) x environment changes (flag flip, reorder, insert, delete, edit, union member switch, union<->null, object<->null). Oracle: a client model folds every update envelope per id, in order, from nothing, with merge.Merge and with the documented client format; at quiescence every subscription the client considers open equals StripKey(Execute(query)) on the final store; the first envelope of an accepted subscription is an update; no update for an id after the server has read past its unsubscribe")
 	register("C17", "c17/lifecycle", "lifecycle", [2]int{2, 3}, c17configs, common+"Items add colliding ids across message types, duplicate ids, max subscriptions, malformed frames, failing resolvers/mutations, context cancellation, scripted and final socket close. Oracle: SubscriptionLogger sequence per id alternates Subscribe/Unsubscribe and is balanced after close+drain; after close a data change + invalidation runs no resolver and writes nothing; every reactive resource has cleanup count 1; plus the C02 clauses for subscriptions that stay open")
+	register("C15", "c15/panic-containment", "errors", [2]int{2, 3}, c15configs, common+"Part (c): a subscription whose resolver panics (on its first run, or on a re-run) next to healthy subscriptions, mutations and echo messages. Oracle: only the panicking request gets an error envelope (the fixed generic text, no panic text); the connection keeps serving and every other subscription converges to the final data")
 	register("C16", "c16/ws-errors", "errors", [2]int{2, 3}, c16configs, common+"Items = failing field (plain error / SafeError / wrapped safe error / panic, with a secret marker in every unsafe text) in a subscription's first run, next to a healthy subscription, and failing mutations / invalid queries / malformed frames. Oracle: every error envelope carries SanitizedError() text or exactly 'Internal server error'; the secret marker never occurs in any envelope; an initially failing subscription gets exactly one error envelope and nothing afterwards; the healthy subscription converges")
 }
